@@ -39,7 +39,40 @@ def _empty_candidates_branch(lp, add_call):
     if name is None:
         return False
     later = lp.body[lp.body.index(branch) + 1:]
-    return any(isinstance(x, ast.Name) and x.id == name and isinstance(x.ctx, ast.Load) for s_ in later for x in ast.walk(s_))
+    if not any(isinstance(x, ast.Name) and x.id == name and isinstance(x.ctx, ast.Load) for s_ in later for x in ast.walk(s_)):
+        return False
+    return name
+
+
+def _candidates_complete(fn, lp, cand):
+    """Is the candidate set `cand` filled from an enumeration of *all* nodes (one side over range(self.n_nodes) / range(len(<edges>)) / a set built as
+    set(range(self.n_nodes)))?  True / None (domain not recognised)."""
+    def all_nodes(it, depth=0):
+        if isinstance(it, ast.Call) and call_name(it) == 'range' and len(it.args) == 1:
+            a = it.args[0]
+            if is_self_attr(a, fn.self_name, 'n_nodes'):
+                return True
+            if isinstance(a, ast.Call) and call_name(a) == 'len' and a.args:
+                e = a.args[0]
+                e = single_def(fn.node, e.id) if isinstance(e, ast.Name) else e
+                return isinstance(e, ast.Attribute) and e.attr == 'edges'
+        if isinstance(it, ast.Call) and call_name(it) in ('set', 'list', 'tuple', 'sorted') and it.args and depth < 2:
+            return all_nodes(it.args[0], depth + 1)
+        if isinstance(it, ast.Name) and depth < 2:
+            d = single_def(fn.node, it.id)
+            return isinstance(d, ast.AST) and all_nodes(d, depth + 1)
+        return False
+    doms = []
+    for x in ast.walk(lp):
+        if isinstance(x, ast.Call) and call_name(x) == 'add' and isinstance(x.func.value, ast.Name) and x.func.value.id == cand:
+            p_ = getattr(x, '_parent', None)
+            while p_ is not None and p_ is not lp:
+                if isinstance(p_, ast.For):
+                    doms.append(p_.iter)
+                p_ = getattr(p_, '_parent', None)
+        if isinstance(x, ast.Assign) and any(isinstance(t, ast.Name) and t.id == cand for t in x.targets) and isinstance(x.value, (ast.SetComp, ast.ListComp)):
+            doms += [g.iter for g in x.value.generators]
+    return True if any(all_nodes(d) for d in doms) else None
 
 
 def edge_appends(fn):
@@ -242,8 +275,13 @@ def d2_d3(ctx, rep):
             rep.check('D2.edges', fn, lp.test, paired, f'{clsn}.{meth}: while |S| != n_nodes, |S| = 1 initially, one edge and one new node per iteration',
                       f'{clsn}.{meth}: the node set and the edge list do not grow together from a single start node', construct=f'{clsn}.{meth} edge count')
             for c in other_adds:
-                if clsn == 'RegularTree' and meth == '_build_kth_tree' and _empty_candidates_branch(lp, c):
+                cand = _empty_candidates_branch(lp, c) if clsn == 'RegularTree' and meth == '_build_kth_tree' else False
+                if cand and _candidates_complete(fn, lp, cand):
                     rep.triaged('D2.edges', fn, c, f'grows the node set without an edge - triaged: {D2_TRIAGE_REASON}', construct=f'{clsn}.{meth}: empty-candidates branch')
+                elif cand:
+                    rep.undecided('D2.edges', fn, c, f'`{short(c, 40)}` grows the node set without an edge when no candidate pair is found, and the candidates are not enumerated over '
+                                  'all nodes of the tree: the argument that this branch is dead (connected line graph, every admissible pair is a candidate) does not apply',
+                                  construct=f'{clsn}.{meth}: empty-candidates branch')
                 else:
                     rep.bad('D2.edges', fn, c, f'{clsn}.{meth}: the node set grows without an edge being added: the tree ends with fewer than n_nodes - 1 edges',
                             construct=f'{clsn}.{meth}: {short(c, 80)}')
